@@ -84,6 +84,38 @@ def _work_inner(job):
         return out
     inp = ctx.inputs
 
+    def obligations(rec, q_ir, q_argvals, q_conc, extra=()):
+        """the derived procedure must be safe wherever the original is (call-site assertions such as stride
+        preconditions, bounds, shapes): z3 searches for an input violating an obligation of q, replayed concretely"""
+        from .equiv import conc_run
+        from .loopsym import ConcViolation
+
+        if rec.get("verdict") not in ("equal",):
+            return
+        r2 = ctx.symbolic_run(q_ir, tag=f"ob{len(out['instances'])}_", argvals=q_argvals)
+        viol, inconc, nobl = ctx.check_obligations(q_ir, r2, extra_assume=list(extra))
+        rec["obligations"] = nobl
+        for o, cex in viol:
+            try:
+                conc_run(p_ir, cex)
+            except ConcViolation:
+                continue  # the original is itself unsafe on this input
+            except (Unsupported, TooBig):
+                continue
+            cq = dict(cex)
+            if q_conc is not None:
+                cq = dict(cex, args=q_conc(cex))
+            try:
+                conc_run(q_ir, cq, check_preds=False)
+            except ConcViolation as cv:
+                rec["verdict"] = "differ"
+                rec["label"] = "unsafe:" + o.kind
+                rec["detail"] = f"the derived procedure violates {cv} on an input on which the original is safe"
+                rec["cex"] = cex_to_json(cex)
+                return
+            except (Unsupported, TooBig):
+                continue
+
     def record(kind, desc, fn):
         rec = {"kind": kind, "args": desc}
         try:
@@ -143,6 +175,7 @@ def _work_inner(job):
                 rec["label"] = v.label
             if v.cex:
                 rec["cex"] = cex_to_json(v.cex)
+            obligations(rec, q_ir, q_argvals, q_conc, extra)
 
         record("partial_eval", vals, do_pe)
 
@@ -186,6 +219,7 @@ def _work_inner(job):
                 rec["label"] = v.label
             if v.cex:
                 rec["cex"] = cex_to_json(v.cex)
+            obligations(rec, q_ir, q_argvals, q_conc)
 
         record("transpose", a.name.name(), do_tr)
 
@@ -237,7 +271,7 @@ def run(tier):
     vseed = seed_from_env()
     names = seed_names()
     if tier == "quick" and not os.environ.get("VERIF_ALLSEEDS"):
-        names = [n for i, n in enumerate(names) if i % 2 == vseed % 2]
+        pass  # quick also covers every seed (detection must not depend on the rotation)
     bounds = dict(size_max=3) if tier == "quick" else dict(size_max=4, idx_max=5, stmt_budget=2500)
     jobs = [dict(seed_name=n, tier=tier, rngseed=vseed, bounds=bounds) for n in names]
     ctx = mp.get_context("fork")
